@@ -228,7 +228,7 @@ func (m *engineMon) afterOp(opLine string, pre *pokerface.GameState, err error) 
 				keys[p.Idx] = k
 			}
 			if okAll {
-				tbl := tableByName(c.table)
+				tbl := specTable(c.table) // the order the property states, not the package table under test
 				es2 := []entry{}
 				for _, p := range gs.Players {
 					sc := int64(0)
@@ -421,6 +421,17 @@ func (m *engineMon) afterOp(opLine string, pre *pokerface.GameState, err error) 
 		}
 	}
 
+	// C05, first sentence, as a property of the STATE (C05.every_close_level): whenever the hand sits in RoundClosed with two or more
+	// players alive, every non-folded player with chips is level with the wager to match — however the state came about (an action
+	// accepted after the round had closed lifts the wager and leaves the others behind)
+	if st.CurrentEvent == "RoundClosed" && alive(gs) >= 2 {
+		for _, p := range gs.Players {
+			if !p.Fold && p.StackSize > 0 && p.Wager != st.CurrentWager {
+				m.V("C05", "no_premature_close", fmt.Sprintf("after %s the %s round is closed while seat %d (stack %d) has put in %d of the %d to match", opLine, st.Round, p.Idx, p.StackSize, p.Wager, st.CurrentWager))
+				break
+			}
+		}
+	}
 	// ---------- C05 ghost history ----------
 	if pre != nil && err == nil && op.kind == "act" && pre.Status.CurrentEvent == "RoundStarted" {
 		actor := pre.Status.CurrentPlayer
